@@ -111,6 +111,8 @@ def run(chk):
         k = f"{c['fn']}/{'float' if c.get('float') else 'exact'}/{'ok' if o['ok'] else o['exc']}"
         dist[k] = dist.get(k, 0) + 1
     chk.cov["input_distribution"] = dist
+    if sum(1 for o in outs if o["ok"]) * 2 < len(outs):
+        chk.broken.append({"name": "C03 generators: fewer than half of the generated lands produced candidate lists (the check would be vacuous)", "detail": json.dumps(dist)})
     # listed findings first (exact inputs)
     for kf in chk.open_findings("domains"):
         r = run_impl("domains_drv.py", {"cases": [kf["input"]]})
